@@ -212,6 +212,19 @@ pub fn multi_binary_streams(max_len: usize) -> Vec<(String, Vec<Wire>)> {
         binary: Some((0..n).map(|i| ((i * 7 + tag) % 253) as u8).collect()),
     };
     let mut out = Vec::new();
+    // components far beyond the buffer's second and third doubling, with further responses
+    // pipelined behind them (a reader that gives a grown buffer back, or swaps it, must carry
+    // those bytes over)
+    for &h in &[33_000usize, 40_000, 70_000, 140_000] {
+        for tail in [vec![10usize], vec![5000], vec![10, 5000, 10], vec![h]] {
+            let mut sizes = vec![h];
+            sizes.extend(tail);
+            let frames: Vec<AFrame> = sizes.iter().enumerate().map(|(i, &z)| frame(z, i)).collect();
+            let mut ws: Vec<Wire> = frames.iter().cloned().map(Wire::Single).collect();
+            ws.push(Wire::Single(AFrame::new(&[("a", "after")])));
+            out.push((format!("responses with huge binaries {sizes:?}"), ws));
+        }
+    }
     for s in seqs {
         if s.iter().all(|&z| z < 4096) && s.len() > 1 {
             continue;
